@@ -23,246 +23,7 @@ pub assume_specification<T>[ <[T]>::as_ptr ](s: &[T]) -> (r: *const T);
 
 //@include inc/deser_base.tpl
 
-assumed_prim!(u16, u16_of, 2);
-assumed_prim!(i32, i32_of, 4);
-pub uninterp spec fn u16_of(s: Seq<u8>) -> u16;
-pub uninterp spec fn i32_of(s: Seq<u8>) -> i32;
-
-// Option<T> under its V-DESER contract (proved there for all T, assumed here)
-impl<T: DeserializeInner> DeserializeInner for Option<T> {
-    type DeserType<'a> = Option<<T as DeserializeInner>::DeserType<'a>>;
-    open spec fn parse(s: Seq<u8>, pos: nat) -> PR<Self> {
-        if s.len() < 1 { PR::Short }
-        else if s[0] == 0 { PR::Val(None, 1) }
-        else if s[0] == 1 { match T::parse(s.skip(1), pos + 1) {
-            PR::Val(v, n) => PR::Val(Some(v), n + 1), PR::BadTag(t) => PR::BadTag(t), PR::Short => PR::Short } }
-        else { PR::BadTag(s[0] as usize) }
-    }
-    open spec fn eps_rel<'a>(d: Option<<T as DeserializeInner>::DeserType<'a>>, v: Self) -> bool {
-        match (d, v) { (None, None) => true, (Some(a), Some(b)) => T::eps_rel(a, b), _ => false }
-    }
-    /// proved in V-DESER for all T, assumed here
-    #[verifier::external_body]
-    proof fn lemma_prefix(s: Seq<u8>, pos: nat, k: nat) {}
-    #[verifier::external_body]
-    fn _deserialize_full_inner<R: ReadWithPos>(backend: &mut R) -> (r: Result<Self>) { unimplemented!() }
-    #[verifier::external_body]
-    fn _deserialize_eps_inner<'a>(backend: &mut SliceWithPos<'a>) -> (r: Result<Self::DeserType<'a>>) { unimplemented!() }
-}
-
-/// continue after `n0` bytes with one field
-pub open spec fn then1<A: DeserializeInner, S>(s: Seq<u8>, pos: nat, n0: nat, mk: spec_fn(A) -> S) -> PR<S> {
-    match A::parse(s.skip(n0 as int), pos + n0) {
-        PR::Val(a, n) => PR::Val(mk(a), n0 + n),
-        PR::BadTag(t) => PR::BadTag(t),
-        PR::Short => PR::Short,
-    }
-}
-/// continue after `n0` bytes with two fields
-pub open spec fn then2<A: DeserializeInner, B: DeserializeInner, S>(s: Seq<u8>, pos: nat, n0: nat, mk: spec_fn(A, B) -> S) -> PR<S> {
-    match A::parse(s.skip(n0 as int), pos + n0) {
-        PR::Val(a, n) => match B::parse(s.skip(n0 as int).skip(n as int), pos + n0 + n) {
-            PR::Val(b, m) => PR::Val(mk(a, b), n0 + n + m),
-            PR::BadTag(t) => PR::BadTag(t),
-            PR::Short => PR::Short,
-        },
-        PR::BadTag(t) => PR::BadTag(t),
-        PR::Short => PR::Short,
-    }
-}
-
-/// two fields one after the other, from the start
-pub open spec fn fields2<A: DeserializeInner, B: DeserializeInner, S>(s: Seq<u8>, pos: nat, mk: spec_fn(A, B) -> S) -> PR<S> {
-    match A::parse(s, pos) {
-        PR::Val(a, n) => match B::parse(s.skip(n as int), pos + n) {
-            PR::Val(b, m) => PR::Val(mk(a, b), n + m),
-            PR::BadTag(t) => PR::BadTag(t),
-            PR::Short => PR::Short,
-        },
-        PR::BadTag(t) => PR::BadTag(t),
-        PR::Short => PR::Short,
-    }
-}
-
-proof fn lemma_then1<A: DeserializeInner, S>(s: Seq<u8>, pos: nat, n0: nat, k: nat, mk: spec_fn(A) -> S)
-    requires then1::<A, S>(s, pos, n0, mk) is Val, n0 <= k <= s.len(),
-    ensures then1::<A, S>(s, pos, n0, mk)->Val_1 <= s.len(),
-        k < then1::<A, S>(s, pos, n0, mk)->Val_1 ==> then1::<A, S>(s.take(k as int), pos, n0, mk) is Short,
-        k >= then1::<A, S>(s, pos, n0, mk)->Val_1 ==> then1::<A, S>(s.take(k as int), pos, n0, mk) == then1::<A, S>(s, pos, n0, mk),
-{
-    A::lemma_prefix(s.skip(n0 as int), pos + n0, (k - n0) as nat);
-    assert(s.take(k as int).skip(n0 as int) =~= s.skip(n0 as int).take(k - n0));
-}
-proof fn lemma_then2<A: DeserializeInner, B: DeserializeInner, S>(s: Seq<u8>, pos: nat, n0: nat, k: nat, mk: spec_fn(A, B) -> S)
-    requires then2::<A, B, S>(s, pos, n0, mk) is Val, n0 <= k <= s.len(),
-    ensures then2::<A, B, S>(s, pos, n0, mk)->Val_1 <= s.len(),
-        k < then2::<A, B, S>(s, pos, n0, mk)->Val_1 ==> then2::<A, B, S>(s.take(k as int), pos, n0, mk) is Short,
-        k >= then2::<A, B, S>(s, pos, n0, mk)->Val_1 ==> then2::<A, B, S>(s.take(k as int), pos, n0, mk) == then2::<A, B, S>(s, pos, n0, mk),
-{
-    let s0 = s.skip(n0 as int);
-    A::lemma_prefix(s0, pos + n0, (k - n0) as nat);
-    assert(s.take(k as int).skip(n0 as int) =~= s0.take(k - n0));
-    let n = A::parse(s0, pos + n0)->Val_1;
-    B::lemma_prefix(s0.skip(n as int), pos + n0 + n, if k >= n0 + n { (k - n0 - n) as nat } else { 0 });
-    if k >= n0 + n {
-        assert(s0.take(k - n0).skip(n as int) =~= s0.skip(n as int).take(k - n0 - n));
-    }
-}
-proof fn lemma_fields2<A: DeserializeInner, B: DeserializeInner, S>(s: Seq<u8>, pos: nat, k: nat, mk: spec_fn(A, B) -> S)
-    requires fields2::<A, B, S>(s, pos, mk) is Val, k <= s.len(),
-    ensures fields2::<A, B, S>(s, pos, mk)->Val_1 <= s.len(),
-        k < fields2::<A, B, S>(s, pos, mk)->Val_1 ==> fields2::<A, B, S>(s.take(k as int), pos, mk) is Short,
-        k >= fields2::<A, B, S>(s, pos, mk)->Val_1 ==> fields2::<A, B, S>(s.take(k as int), pos, mk) == fields2::<A, B, S>(s, pos, mk),
-{
-    A::lemma_prefix(s, pos, k);
-    let n = A::parse(s, pos)->Val_1;
-    B::lemma_prefix(s.skip(n as int), pos + n, if k >= n { (k - n) as nat } else { 0 });
-    if k >= n {
-        assert(s.take(k as int).skip(n as int) =~= s.skip(n as int).take(k - n));
-    }
-}
-
-// ---- the sample definitions (verbatim from kani-harness/src/types.rs) ----------
-
-//@item @types name=E1 <<pub enum E1 {>>
-//@end
-//@item @types name=DT <<pub struct DT(pub u32, pub Option<u16>);>>
-//@end
-//@item @types name=GE <<pub enum GE<V> {>>
-//@end
-//@item @types name=G2 <<pub struct G2<T, U> {>>
-//@end
-
-//@item @derive props=C01,C02,C05,C11,C15 name=E1::DeserializeInner <<impl epserde::deser::DeserializeInner for E1<> where>>
-//@  replace <<use epserde::deser::DeserializeInner;>> <<>>
-//@  replace <<epserde::deser::>> <<>>
-//@  body_prefix
-//@|    open spec fn parse(s: Seq<u8>, pos: nat) -> PR<Self> {
-//@|        // pointer-width variant index, then the fields of the variant in order
-//@|        if s.len() < 8 { PR::Short }
-//@|        else if usize_of(s.take(8)) == 0 { PR::Val(E1::A, 8) }
-//@|        else if usize_of(s.take(8)) == 1 { then1::<u16, Self>(s, pos, 8, |v: u16| E1::B(v)) }
-//@|        else if usize_of(s.take(8)) == 2 { then2::<u8, u32, Self>(s, pos, 8, |x: u8, y: u32| E1::C { x, y }) }
-//@|        else if usize_of(s.take(8)) == 3 { PR::Val(E1::D, 8) }
-//@|        else { PR::BadTag(usize_of(s.take(8))) }
-//@|    }
-//@|    open spec fn eps_rel<'a>(d: E1, v: Self) -> bool {
-//@|        d == v
-//@|    }
-//@|    proof fn lemma_prefix(s: Seq<u8>, pos: nat, k: nat) {
-//@|        let kk = if k >= 8 { k } else { 8 };
-//@|        if k >= 8 { assert(s.take(k as int).take(8) =~= s.take(8)); }
-//@|        if usize_of(s.take(8)) == 1 { lemma_then1::<u16, Self>(s, pos, 8, kk, |v: u16| E1::B(v)); }
-//@|        if usize_of(s.take(8)) == 2 { lemma_then2::<u8, u32, Self>(s, pos, 8, kk, |x: u8, y: u32| E1::C { x, y }); }
-//@|    }
-//@  sub <<fn _deserialize_full_inner(backend:>>
-//@  impl_arg
-//@  ret r
-//@  sub <<fn _deserialize_eps_inner<'deserialize_eps_inner_lifetime>(backend:>>
-//@  ret r
-//@end
-
-//@item @derive props=C01,C02,C05,C11,C15 name=DT::DeserializeInner <<impl epserde::deser::DeserializeInner for DT<> where>>
-//@  replace <<use epserde::deser::DeserializeInner;>> <<>>
-//@  replace <<epserde::deser::>> <<>>
-//@  body_prefix
-//@|    open spec fn parse(s: Seq<u8>, pos: nat) -> PR<Self> {
-//@|        fields2::<u32, Option<u16>, Self>(s, pos, |a: u32, b: Option<u16>| DT(a, b))
-//@|    }
-//@|    open spec fn eps_rel<'a>(d: DT, v: Self) -> bool {
-//@|        d == v
-//@|    }
-//@|    proof fn lemma_prefix(s: Seq<u8>, pos: nat, k: nat) {
-//@|        lemma_fields2::<u32, Option<u16>, Self>(s, pos, k, |a: u32, b: Option<u16>| DT(a, b));
-//@|    }
-//@  sub <<fn _deserialize_full_inner(backend:>>
-//@  impl_arg
-//@  ret r
-//@  sub <<fn _deserialize_eps_inner<'deserialize_eps_inner_lifetime>(backend:>>
-//@  ret r
-//@end
-
-//@item @derive props=C01,C02,C05,C11,C15 name=GE::DeserializeInner <<impl<V> epserde::deser::DeserializeInner for GE<V> where>>
-//@  replace <<use epserde::deser::DeserializeInner;>> <<>>
-//@  replace <<epserde::deser::>> <<>>
-//@  body_prefix
-//@|    open spec fn parse(s: Seq<u8>, pos: nat) -> PR<Self> {
-//@|        if s.len() < 8 { PR::Short }
-//@|        else if usize_of(s.take(8)) == 0 { PR::Val(GE::N, 8) }
-//@|        else if usize_of(s.take(8)) == 1 { then2::<i32, V, Self>(s, pos, 8, |a: i32, b: V| GE::S { a, b }) }
-//@|        else if usize_of(s.take(8)) == 2 { then2::<V, u8, Self>(s, pos, 8, |x: V, k: u8| GE::T(x, k)) }
-//@|        else { PR::BadTag(usize_of(s.take(8))) }
-//@|    }
-//@|    open spec fn eps_rel<'a>(d: GE<<V as DeserializeInner>::DeserType<'a>>, v: Self) -> bool {
-//@|        match (d, v) {
-//@|            (GE::N, GE::N) => true,
-//@|            (GE::S { a, b }, GE::S { a: a2, b: b2 }) => a == a2 && V::eps_rel(b, b2),
-//@|            (GE::T(x, k), GE::T(x2, k2)) => V::eps_rel(x, x2) && k == k2,
-//@|            _ => false,
-//@|        }
-//@|    }
-//@|    proof fn lemma_prefix(s: Seq<u8>, pos: nat, k: nat) {
-//@|        let kk = if k >= 8 { k } else { 8 };
-//@|        if k >= 8 { assert(s.take(k as int).take(8) =~= s.take(8)); }
-//@|        if usize_of(s.take(8)) == 1 { lemma_then2::<i32, V, Self>(s, pos, 8, kk, |a: i32, b: V| GE::S { a, b }); }
-//@|        if usize_of(s.take(8)) == 2 { lemma_then2::<V, u8, Self>(s, pos, 8, kk, |x: V, k: u8| GE::T(x, k)); }
-//@|    }
-//@  sub <<fn _deserialize_full_inner(backend:>>
-//@  impl_arg
-//@  ret r
-//@  sub <<fn _deserialize_eps_inner<'deserialize_eps_inner_lifetime>(backend:>>
-//@  ret r
-//@end
-
-
-/// three fields one after the other, from the start
-pub open spec fn fields3<A: DeserializeInner, B: DeserializeInner, C: DeserializeInner, S>(s: Seq<u8>, pos: nat, mk: spec_fn(A, B, C) -> S) -> PR<S> {
-    match A::parse(s, pos) {
-        PR::Val(a, n) => match B::parse(s.skip(n as int), pos + n) {
-            PR::Val(b, m) => match C::parse(s.skip(n as int).skip(m as int), pos + n + m) {
-                PR::Val(c, k) => PR::Val(mk(a, b, c), n + m + k),
-                PR::BadTag(t) => PR::BadTag(t),
-                PR::Short => PR::Short,
-            },
-            PR::BadTag(t) => PR::BadTag(t),
-            PR::Short => PR::Short,
-        },
-        PR::BadTag(t) => PR::BadTag(t),
-        PR::Short => PR::Short,
-    }
-}
-
-//@item @derive props=C01,C02,C05,C11 name=G2::DeserializeInner <<impl<T, U> epserde::deser::DeserializeInner for G2<T, U> where>>
-//@  replace <<use epserde::deser::DeserializeInner;>> <<>>
-//@  replace <<epserde::deser::>> <<>>
-//@  body_prefix
-//@|    open spec fn parse(s: Seq<u8>, pos: nat) -> PR<Self> {
-//@|        fields3::<T, U, u8, Self>(s, pos, |a: T, b: U, c: u8| G2 { a, b, c })
-//@|    }
-//@|    /// both parameters are field types: both are substituted (C05)
-//@|    open spec fn eps_rel<'a>(d: G2<<T as DeserializeInner>::DeserType<'a>, <U as DeserializeInner>::DeserType<'a>>, v: Self) -> bool {
-//@|        T::eps_rel(d.a, v.a) && U::eps_rel(d.b, v.b) && d.c == v.c
-//@|    }
-//@|    proof fn lemma_prefix(s: Seq<u8>, pos: nat, k: nat) {
-//@|        T::lemma_prefix(s, pos, k);
-//@|        let n = T::parse(s, pos)->Val_1;
-//@|        let s1 = s.skip(n as int);
-//@|        U::lemma_prefix(s1, pos + n, if k >= n { (k - n) as nat } else { 0 });
-//@|        let m = U::parse(s1, pos + n)->Val_1;
-//@|        u8::lemma_prefix(s1.skip(m as int), pos + n + m, if k >= n + m { (k - n - m) as nat } else { 0 });
-//@|        if k >= n {
-//@|            assert(s.take(k as int).skip(n as int) =~= s1.take(k - n));
-//@|            if k >= n + m {
-//@|                assert(s1.take(k - n).skip(m as int) =~= s1.skip(m as int).take(k - n - m));
-//@|            }
-//@|        }
-//@|    }
-//@  sub <<fn _deserialize_full_inner(backend:>>
-//@  impl_arg
-//@  ret r
-//@  sub <<fn _deserialize_eps_inner<'deserialize_eps_inner_lifetime>(backend:>>
-//@  ret r
-//@end
+//@include inc/derive_deser.tpl
 
 } // verus!
 fn main() {}
